@@ -691,6 +691,24 @@ func (c *context) outcome(e *entry) kit.Outcome {
 	return o
 }
 
+// lookAlikes are plain strings that look like character references (or like
+// escapes of the other contexts): the value must decode back to ITSELF, not to
+// what it would mean if it were markup.
+func lookAlikes() []string {
+	core := []string{"AT&amp;T", "&lt;", "&gt;", "&#65;", "&#x41;", "&#X41;", "&copy 2024", "&copy;", "&amp;amp;", "&", "&;", "&#;", "&#x;", "&amp", "&#38;", "&#x26;#x26;",
+		"&lt;script&gt;", "&quot;", "&apos;", "&#34;", "&#39;", "&#0;", "&#xD800;", "&#1114112;", "&nbsp;", "&NotAnEntity;", "&amp;lt;", "%26amp;", "%26", "%3C", "&#37;41",
+		"\\u003c", "\\x3c", "\\3c ", "\\\\", "\\n", "\\'", "\\\"", "&#43;", "&#32;", "a&#43;b"}
+	var out []string
+	for _, c := range core {
+		for _, pre := range []string{"", "a", "&", ";"} {
+			for _, post := range []string{"", "b", ";", "&"} {
+				out = append(out, pre+c+post)
+			}
+		}
+	}
+	return out
+}
+
 func spaces(tier string) []kit.Space {
 	var sps []kit.Space
 	full := alphabet(false)
@@ -728,7 +746,9 @@ func spaces(tier string) []kit.Space {
 		})
 	}
 	ns := uint64(len(specials))
+	look := lookAlikes()
 	for _, c := range contexts() {
+		add(c, "single-show/character-reference look-alikes", uint64(len(look)), func(i uint64) string { return look[i] })
 		add(c, "single-show/len<=2", en2.Size(), en2.At)
 		add(c, fmt.Sprintf("len<=%d", n), en.Size(), en.At)
 		add(c, "special+byte", ns*256, func(i uint64) string { return specials[i/256] + string([]byte{byte(i % 256)}) })
@@ -741,6 +761,7 @@ func spaces(tier string) []kit.Space {
 			add(c, "all byte pairs", 65536, func(i uint64) string { return string([]byte{byte(i >> 8), byte(i)}) })
 		}
 	}
+	sps = append(sps, urlSeqSpaces(tier)...)
 	return sps
 }
 
